@@ -85,10 +85,17 @@ def canonChanges (cs : List Change) : List Change :=
   (cs.map fun c => { c with peers := sortNat c.peers }).mergeSort
     (fun a b => a.fam < b.fam ∨ (a.fam = b.fam ∧ (a.pfx < b.pfx ∨ (a.pfx = b.pfx ∧ peersKey a.peers ≤ peersKey b.peers))))
 
-def changeT (c : Change) : Term := list [nat c.fam, nat c.pfx, ofList nat c.peers]
-def changeOf? : Term → Option Change
-  | .list [f, n, ps] => do pure { fam := (← asNat? f), pfx := (← asNat? n), peers := (← asListOf? asNat? ps) }
+def kindT : ChgKind → Term
+  | .adv => sym "adv" | .chg => sym "chg" | .mute => sym "mute"
+def kindOf? : Term → Option ChgKind
+  | .atom "adv" => some .adv | .atom "chg" => some .chg | .atom "mute" => some .mute
   | _ => none
+def changeOf? : Term → Option Change
+  | .list [f, n, ps, k] => do
+      pure { fam := (← asNat? f), pfx := (← asNat? n), peers := (← asListOf? asNat? ps), kind := (← kindOf? k) }
+  | _ => none
+
+def changeT (c : Change) : Term := list [nat c.fam, nat c.pfx, ofList nat c.peers, kindT c.kind]
 
 def tagT : Tag → Term
   | .awaiting => sym "awaiting" | .deferring => sym "deferring"
@@ -109,13 +116,14 @@ def pendOf? : Term → Option (Peer × List Fam)
 def obsT (o : Obs) : Term :=
   list [tag "outs" ((canonOuts o.outs).map outT), tag "chg" ((canonChanges o.changes).map changeT),
         tagT o.tag, tag "pend" ((canonPending o.pending).map pendT), bool o.installed,
-        tag "flags" ((sortNat o.flags).map nat)]
+        tag "flags" ((sortNat o.flags).map nat), bool o.timer]
 
 def obsOf? : Term → Option Obs
   | .list [.list (.atom "outs" :: os), .list (.atom "chg" :: cs), tg, .list (.atom "pend" :: ps), inst,
-           .list (.atom "flags" :: fl)] => do
+           .list (.atom "flags" :: fl), tm] => do
       pure { outs := (← os.mapM outOf?), changes := (← cs.mapM changeOf?), tag := (← tagOf? tg),
-             pending := (← ps.mapM pendOf?), installed := (← asBool? inst), flags := (← fl.mapM asNat?) }
+             pending := (← ps.mapM pendOf?), installed := (← asBool? inst), flags := (← fl.mapM asNat?),
+             timer := (← asBool? tm) }
   | _ => none
 
 def traceT (tr : List Obs) : Term := tag "trace" (tr.map obsT)
